@@ -341,7 +341,8 @@ func readPackageInfo(directory string) (*PackageInfo, error) {
 func collectPackages(parentDir string, alreadyCollected map[string]*PackageInfo, importChain map[string]bool, depthRemaining int) (*PackageInfo, error) {
 	parentInfo, err := readPackageInfo(parentDir)
 	if err != nil {
-		return nil, err
+		// parentInfo, if not nil, still says where the package is
+		return parentInfo, err
 	}
 
 	if importChain[parentInfo.Namespace] {
@@ -376,6 +377,11 @@ func collectPackages(parentDir string, alreadyCollected map[string]*PackageInfo,
 		importChain[parentInfo.Namespace] = true
 		childInfo, err := collectPackages(dir, alreadyCollected, importChain, depthRemaining-1)
 		if err != nil {
+			// Keep what is known about the package that failed to load: watch mode
+			// has to watch its directory to notice when the problem is corrected.
+			if childInfo != nil {
+				parentInfo.Imports[i].Package = childInfo
+			}
 			return parentInfo, err
 		}
 		importChain[parentInfo.Namespace] = false
